@@ -57,6 +57,9 @@ var stateKinds = map[string]stateKind{
 		return f.n.App.State.ValidationPeriod() == state.NonePeriod && (len(f.pools()) > 0 || b >= 17) // pools preferred, not required
 	}},
 	"ceremony": {15, 120, func(f *fixture, b int) bool { return f.n.App.State.ValidationPeriod() == state.LongSessionPeriod }},
+	"ceremony2": {60, 400, func(f *fixture, b int) bool { // a ceremony of a LATER epoch (VRF proofs of long answers are checked from epoch 1 on)
+		return f.n.App.State.Epoch() >= 1 && f.n.App.State.ValidationPeriod() == state.LongSessionPeriod
+	}},
 	"epoch1": {20, 200, func(f *fixture, b int) bool {
 		return f.n.App.State.Epoch() >= 1 && f.n.App.State.ValidationPeriod() == state.NonePeriod && f.sinceEpoch >= 5
 	}},
